@@ -2,9 +2,33 @@
 mod buffer;
 mod cli;
 mod codec;
+#[allow(dead_code)]
+#[path = "/repo/slicec/src/definition_types.rs"]
+mod definition_types;
 mod front;
 
 use std::io::{BufRead, Write};
+
+/// Counting allocator: records the largest single allocation request since the last reset (C11: cost).
+pub struct Counting;
+pub static MAX_ALLOC: std::sync::atomic::AtomicUsize = std::sync::atomic::AtomicUsize::new(0);
+unsafe impl std::alloc::GlobalAlloc for Counting {
+    unsafe fn alloc(&self, l: std::alloc::Layout) -> *mut u8 {
+        MAX_ALLOC.fetch_max(l.size(), std::sync::atomic::Ordering::Relaxed);
+        // refuse absurd requests instead of letting the OS thrash: the request size is what is being measured
+        if l.size() > (1usize << 31) { return std::ptr::null_mut(); }
+        std::alloc::System.alloc(l)
+    }
+    unsafe fn dealloc(&self, p: *mut u8, l: std::alloc::Layout) { std::alloc::System.dealloc(p, l) }
+    unsafe fn realloc(&self, p: *mut u8, l: std::alloc::Layout, n: usize) -> *mut u8 {
+        MAX_ALLOC.fetch_max(n, std::sync::atomic::Ordering::Relaxed);
+        if n > (1usize << 31) { return std::ptr::null_mut(); }
+        std::alloc::System.realloc(p, l, n)
+    }
+}
+#[global_allocator]
+static GLOBAL: Counting = Counting;
+
 
 fn main() {
     let comp = std::env::args().nth(1).unwrap_or_default();
